@@ -64,12 +64,13 @@ def join_env(e1, e2):
 
 
 class Op(object):
-  def __init__(self, node, need, value, ok, func):
+  def __init__(self, node, need, value, ok, func, via=()):
     self.node = node
     self.need = need
     self.value = value
     self.ok = ok
     self.func = func
+    self.via = via      # call sites (text) through which a helper's operation was reached
 
 
 class Interp(object):
@@ -81,13 +82,14 @@ class Interp(object):
     self.func_name = func_name
     self.fenced = 0
     self._inline_depth = 0
+    self._via = []
 
   # ------------------------------------------------------------------ obligations
   def need(self, node, what, val, allowed):
     if not isinstance(val, J):
       return
     ok = val.kinds <= frozenset(allowed) or self.fenced > 0
-    self.ops.append(Op(node, what, val, ok, self.func_name))
+    self.ops.append(Op(node, what, val, ok, self.func_name, tuple(self._via)))
 
   # ------------------------------------------------------------------ expressions
   def ev(self, e, env):
@@ -298,10 +300,12 @@ class Interp(object):
       for p in params[len(args):]:
         cenv[p] = kwargs.get(p)
       self._inline_depth += 1
+      self._via.append(short(c, 60))
       try:
         ret = self.run_body(fdef.body, cenv)
       finally:
         self._inline_depth -= 1
+        self._via.pop()
       return ret
     if isinstance(c.func, ast.Attribute):
       recv = self.ev(c.func.value, env)
